@@ -727,6 +727,13 @@ def c14_jobs(tier):
         des("buffer-fractional-clock", "history", b, dl, procs=3, prios="0,1,1", budget=4, buf=3, tscale="0.1", t0="-0.15",
             ops="recon,recoff,bput1,bput2,bget1,bget2,hold0,hold1,hold2,int0,exit",
             script0="recon,bput2,hold1,bput2", script1="bget1,hold1,bget2,recoff", script2="hold1,bget2"),
+        # a very fine clock (time unit 2^-54: every interval far below DBL_EPSILON) and a very coarse one (2^60)
+        des("resource-attosecond-clock", "history", 2, dl, procs=3, prios="0,1,2", budget=4, res=1, tscale="5.551115123125783e-17",
+            ops="recon,recoff,racq0,rrel0,rpre0,hold0,hold1,hold2,int0,exit",
+            script0="recon,racq0,hold1,rrel0", script1="hold1,racq0,hold1,recoff", script2="hold2,rpre0,hold1"),
+        des("buffer-aeon-clock", "history", 2, dl, procs=3, prios="0,1,1", budget=4, buf=3, tscale="1152921504606846976",
+            ops="recon,recoff,bput1,bput2,bget1,bget2,hold0,hold1,hold2,int0,exit",
+            script0="recon,bput2,hold1,bput2", script1="bget1,hold1,bget2,recoff", script2="hold1,bget2"),
         # histories of more than 1024 / 2048 samples (the time series' growth thresholds): scripts repeat, nothing is chosen
         des("resource-long", "history", 0, dl, procs=3, prios="0,0,0", budget="1,2400,2400", res=1, cycle=1, maxevents=40000,
             ops="recon", script0="recon", script1="racq0,hold1,rrel0,hold2", script2="hold1,racq0,hold2,rrel0"),
@@ -913,7 +920,7 @@ def c18_jobs(tier):
     if tier == "quick":
         return [j("small-len6", mode="small", maxlen=6), j("perm6", mode="perm", maxlen=6), j("big", mode="big"),
                 j("ts-len4", mode="ts", maxlen=4),
-                j("small-len6-huge", mode="small", maxlen=6, huge=1),
+                j("small-len6-huge", mode="small", maxlen=6, huge=1), j("small-len6-huge-signed", mode="small", maxlen=6, huge=2),
                 # statistics are computed inside trials, i.e. on concurrent worker threads, each on its own objects
                 dict(j("threads-free-running", mode="free"), workers=1),
                 dict(j("tsan-free-running", mode="free"), cfg="tsan", workers=1),
@@ -921,7 +928,7 @@ def c18_jobs(tier):
                 dict(j("ts-len4-fptrap", mode="ts", maxlen=4, fptrap=1), cfg="rel")]
     return [j("small-len8", mode="small", maxlen=8), j("perm8", mode="perm", maxlen=8), j("big", mode="big"),
             j("ts-len6", mode="ts", maxlen=6),
-            j("small-len8-huge", mode="small", maxlen=8, huge=1),
+            j("small-len8-huge", mode="small", maxlen=8, huge=1), j("small-len8-huge-signed", mode="small", maxlen=8, huge=2),
             dict(j("threads-free-running", mode="free"), workers=1),
             dict(j("tsan-free-running", mode="free"), cfg="tsan", workers=1),
             dict(j("small-len7-fptrap", mode="small", maxlen=7, fptrap=1), cfg="rel"),
@@ -998,6 +1005,10 @@ def c15_jobs(tier):
             d["workers"] = workers
         return d
     jobs = [j("identity", mode="identity"), j("identity-O2", "rel", mode="identity"),
+            # nothing but the seed: not what lies in memory next to an argument either (probability vectors handed over as
+            # blocks of exactly n numbers, sums on both sides of one, every lattice draw; AddressSanitizer build)
+            dict(name="argument-blocks", harness="c16_dist", cfg="asan", opts=dict(mode="aliasvec", maxn=4), bound_min=0,
+                 bound_max=0, deadline=600, crash_is_violation=True, recycle=1000),
             j("history", mode="history", hist=2 if tier == "quick" else 3),
             j("history-O2", "rel", mode="history", hist=2 if tier == "quick" else 3),
             j("experiment-workers", mode="experiment"), j("experiment-workers-O2", "rel", mode="experiment"),
